@@ -66,6 +66,9 @@ impl CaseReport {
     }
     /// The case could not be decided (e.g. a wait for quiescence timed out). Never a violation;
     /// counted, and the run exits 2 if more than 5 % of all cases end up here.
+    pub fn is_inconclusive(&self) -> bool {
+        self.counters.iter().any(|(k, n)| k == "inconclusive" && *n > 0)
+    }
     pub fn inconclusive(&mut self, why: &str) {
         self.count("inconclusive", 1);
         self.class(format!("inconclusive:{why}"));
